@@ -577,6 +577,13 @@ func combine(variables MatchedVariables, predicates []Predicate, expressions []E
 				// when we are done looking at a set of facts, the last index is incremented
 				// and if that one reached the max number of facts, the previous one, etc
 				for {
+					// the search itself can be long: look at stop here as well
+					select {
+					case <-stop:
+						return
+					default:
+					}
+
 					if (*facts)[indexes[current]].Match(predicates[current]) {
 						if current == len(predicates)-1 {
 							// extract and check variables, check expressions, send variables
